@@ -264,6 +264,9 @@ def runC19 (t : Tier) : Emit Unit := do
     let repl := showPerPID ((perPID m2.units).map (fun (pid, _, _) =>
         (pid, (m2.units.filter (·.pid == pid)).map fun u => replacerData (packetsOf u 0))) |>.toArray.qsort (fun a b => a.1 < b.1) |>.toList) 0 "eof"
     emit "C19" (demuxCase bs2 { view := .perpid, parser := .replacer } none (some repl) "parser-replacer")
+    -- a parser that takes every unit over and returns nothing: nothing is delivered (and nothing is parsed by default)
+    emit "C19" (demuxCase bs2 { view := .perpid, parser := .dropper } none (some (showPerPID [] 0 "eof")) "parser-dropper")
+    emit "C19" (demuxCase bs2 { view := .seq, parser := .dropper } none none "parser-dropper-log")
     emit "C19" (demuxCase bs2 { view := .seq, parser := .observer } none none "parser-observer-log")
     emit "C19" (demuxCase bs2 { view := .seq, parser := .failing } none none "parser-failing")
 
@@ -400,5 +403,16 @@ def runC16 (t : Tier) : Emit Unit := do
       -- returned so far is rendered again and must be unchanged
       let calls := ((List.range (total + 1)).map fun _ => [Call.next, Call.poison]).flatten
       emit "C16" (demuxCase bs { cfg with view := .seq } (some calls) none "poison-after-every-call" "" "stable")
+  -- independent demuxers in different goroutines: each over its own stream (large units, so that the pooled payload
+  -- buffers are in use for a while), all running together for several rounds; every result = the result alone = the model's
+  for i in [0:(if t.quick then 2 else 10)] do
+    let mut subs : List String := []
+    for j in [0:8] do
+      let m ← liftGen (genStream { pesPIDs := [0x100 + j], pmtPIDs := if j % 2 = 0 then [0x1000] else [], dvb := j % 4 = 0,
+                                   unitsPerPID := 3, maxPayload := 6000 })
+      let c := demuxCase m.bytes { view := .perpid, packetAPI := false, size := if (i + j) % 2 = 0 then 188 else 0 } none none "sub"
+      subs := subs ++ [c.line "C16" 0]
+    emit "C16" { op := "concurrent", args := [("cases", jarr subs), ("rounds", jnat (if t.quick then 30 else 100))],
+                 model := "consistent", spec := some "consistent", tag := "concurrent-demuxers" }
 
 end Astits.DriverDemux
